@@ -457,8 +457,12 @@ func checkRecordPattern(c *Ctx, r *Report) {
 		}
 		// fold cond for counter values -1, 0, 1
 		var vobj types.Object
-		if id, ok := be.X.(*ast.Ident); ok {
-			vobj = p2.TypesInfo.Uses[id]
+		for _, side := range []ast.Expr{be.X, be.Y} {
+			if id, ok := ast.Unparen(side).(*ast.Ident); ok && vobj == nil {
+				if v, isVar := p2.TypesInfo.Uses[id].(*types.Var); isVar {
+					vobj = v
+				}
+			}
 		}
 		if vobj == nil {
 			return true
@@ -720,7 +724,7 @@ func rowString(row []bool) string {
 
 // S-VARWHOLE: PatternMatchVariance folded as a whole function against the exact rational reference
 func checkVarianceWhole(c *Ctx, r *Report) {
-	r.Rule("S-VARWHOLE", "PatternMatchVariance(counters, pattern, limit) folded (float64 arithmetic as in Go, loops unrolled) on every counter vector with entries 0..4 for four representative patterns and three limits, and on their multiples by 2, 3 and 7: +Inf exactly when there are fewer pixels than modules or a run deviates by more than limit * unit, otherwise the total absolute deviation divided by the total width (reference in exact rational arithmetic, tolerance 1e-9; vectors sitting exactly on the limit are compared only where the float computation is exact), and the score of k*c equals the score of c", 1)
+	r.Rule("S-VARWHOLE", "PatternMatchVariance(counters, pattern, limit) folded (float64 arithmetic as in Go, loops unrolled) on every counter vector with entries 0..4 for four representative patterns and five limits (0.48, 0.5, 0.7 as the readers use, and 1.25, 2.5: a limit of a module or more tolerates an empty run), and on their multiples by 2, 3 and 7: +Inf exactly when there are fewer pixels than modules or a run deviates by more than limit * unit, otherwise the total absolute deviation divided by the total width (reference in exact rational arithmetic, tolerance 1e-9; vectors sitting exactly on the limit are compared only where the float computation is exact), and the score of k*c equals the score of c", 1)
 	fd, p := c.funcDeclOf("oned", "PatternMatchVariance")
 	key := "oned.PatternMatchVariance/whole"
 	if fd == nil {
@@ -729,7 +733,7 @@ func checkVarianceWhole(c *Ctx, r *Report) {
 	}
 	r.Analysed(key)
 	patterns := [][]int64{{1, 1, 1, 1}, {3, 2, 1, 1}, {1, 1, 3}, {2, 1, 2, 2}}
-	limits := []float64{0.5, 0.7, 0.48}
+	limits := []float64{0.5, 0.7, 0.48, 1.25, 2.5}
 	hooks := &rpf{unroll: 64, callHook: func(rr *rpf, call *ast.CallExpr, callee types.Object) (*Val, bool) {
 		if fn, ok := callee.(*types.Func); ok && fn.Pkg() != nil && fn.Pkg().Path() == "math" && fn.Name() == "Inf" {
 			return &Val{K: VFloat, F: math.Inf(1)}, true
